@@ -22,8 +22,8 @@ CHECKS = {
     "C03": {"stages": [("plain", "c03", 1.0, [])], "level": "exploration"},
     "C02": {"stages": [("plain", "c02", 1.0, [])], "level": "exploration"},
     "C01": {"stages": [("plain", "c01", 1.0, [])], "level": "exploration"},
-    "C11": {"stages": [("plain", "c11", 1.0, [])], "level": "exploration"},
-    "C12": {"stages": [("plain", "c12", 1.0, [])], "level": "exploration"},
+    "C11": {"stages": [("plain", "c11", 0.7, []), ("asan", "c11", 0.3, [])], "level": "exploration"},
+    "C12": {"stages": [("plain", "c12", 0.7, []), ("asan", "c12", 0.3, [])], "level": "exploration"},
     "C19": {"stages": [("plain", "c19", 0.5, []), ("asan", "c19", 0.5, [])], "level": "fault_enumeration"},
 }
 TIER_SECONDS = {"quick": 75, "thorough": 1500}
